@@ -12,7 +12,7 @@ def make(rd, tier, seed, ev):
     ev.add_model(r, 'PlanGen: enumeration of all small timeline problems with their feasibility verdicts')
     sv = [s for s in shapes if s['fam'] == 'sv']
     pick = gen_problems.sample_shapes(sv, 250 if tier == 'quick' else 2500, seed)
-    gen = plancheck.write_problems(rd, [(gen_problems.shape_name(s), gen_problems.render_timeline(s)) for s in pick])
+    gen = plancheck.write_problems(rd, [(gen_problems.shape_name(s), gen_problems.render_timeline(s)) for s in pick]) + plancheck.feature_problems(rd, ['timeline_sv'], seed, tier)[0]
     expected = {gen_problems.shape_name(s): s['feasible'] for s in pick}
     repo = [p for p in plancheck.repo_problems() if p[0].startswith(('SVTest', 'GOAC', 'Logistics', 'Telepresence'))]
     if tier == 'quick':
@@ -24,7 +24,7 @@ def make(rd, tier, seed, ev):
 def run(tier, seed):
     return plancheck.run_plan(PROP, tier, seed,
         rule='state-variable problems: every shape enumerated by PlanGen.tla (1-2 instances, 2 atoms, facts/goals, fixed or '
-             'planner-chosen instance, fixed or free start, durations 0-2 incl. zero-length, horizons 2-3) sampled by seed, plus '
+             'planner-chosen instance, fixed or free start, durations 0-2 incl. zero-length, horizons 2-3) sampled by seed, plus the feature-cross timeline family (2-3 atoms on one instance x 10 temporal relations, strict ones included, so that overlaps can be infinitesimal x pinned / free times x statement order x incremental reading), plus '
              'the repository examples that use state variables; every reported solution is validated by PlanTrace: no two active '
              'atoms assigned to one instance overlap in [start,end), every timeline segment lists at most one atom and exactly '
              'the covering ones; distinct_nontrivial = (configuration, problem) pairs whose solution has >= 2 active '
